@@ -110,11 +110,13 @@ class Model:
 
 
 OWNED = {
-    "C13": {"eid-cells", "set-eid-accepted", "set-discovered-flag", "get-eid", "no-response", "wrong-command"},
+    "C13": {"eid-cells", "set-eid-accepted", "set-discovered-flag", "get-eid", "no-response", "wrong-command", "malformed-response"},
     "C14": {"get-vendor", "no-response", "wrong-command", "malformed-response"},
     "C15": {"get-uuid", "get-version", "get-types", "no-response", "wrong-command", "malformed-response"},
 }
 CMD_OF = {"C13": {1, 2}, "C14": {6}, "C15": {3, 4, 5}}
+# commands for which an accepted request must be answered at all
+MUST_ANSWER = {"C13": {1}, "C14": {6}, "C15": {3, 4, 5}}
 
 
 def check_model_trace(prop, events):
@@ -144,6 +146,7 @@ def check_model_trace(prop, events):
         elif op == "U":
             m.uuid = bytes.fromhex(ev["in"])
         found = []
+        exp_cmd = exp[1] if exp and exp[0] == "respond" else None
         stats["eid_checks"] += 1
         if (ev["er"], ev["es"]) != (m.req, m.resp):
             found.append(("eid-cells", "accessors (%#x,%#x) vs model (%#x,%#x)" % (ev["er"], ev["es"], m.req, m.resp)))
@@ -156,7 +159,8 @@ def check_model_trace(prop, events):
                 found.append(("no-response", "no response for command %#x" % cmd))
             else:
                 r = bytes.fromhex(resp)
-                if len(r) < 13 or r[8] != 0 or not pec_ok(r) or r[2] != len(r) - 4:
+                # PEC / byte count of responses are judged by C12, C03, C04 - not by the content monitors
+                if len(r) < 13 or r[8] != 0:
                     found.append(("malformed-response", resp))
                 elif r[10] != cmd:
                     found.append(("wrong-command", resp))
@@ -167,7 +171,8 @@ def check_model_trace(prop, events):
                         ok = False
                     if not ok:
                         found.append((what, "data %s vs pattern %s" % (data.hex(), pat)))
-        found = [f for f in found if f[0] in owned]
+        found = [f for f in found if f[0] in owned
+                 and (f[0] == "eid-cells" or (exp_cmd in CMD_OF[prop] and (f[0] != "no-response" or exp_cmd in MUST_ANSWER[prop])))]
         if found:
             problems.append((ln, found[0][0], found[0][1]))
             dead.add(h)  # model and context have diverged
